@@ -85,3 +85,22 @@ def _logspace(prog):
 canary.register("C11", "linear", _lin("LIN-WORD"), "LIN-WORD")
 canary.register("C11", "linear", _lin("LIN-LOGDET"), "LIN-LOGDET")
 canary.register("C19", "linear", _logspace, "NUM-LOGSPACE")
+
+
+def _rng_eval(prog):
+    from .report import Finding
+    from .rules.c12 import analyse, _leaves
+
+    dom, it, per_entry = analyse(prog)
+    out = []
+    for e, r in per_entry:
+        for leaf in _leaves(r):
+            for l in leaf.ann:
+                if isinstance(l, tuple) and l[0] == "RNG":
+                    fi, node, op = dom.sites[l]
+                    out.append(Finding("BM-RNG", fi.module, fi.qualname, node, op))
+    return out
+
+
+# canaries/engine: inverse() applies F.dropout without training= (bad) / with training=self.training (good)
+canary.register("C12", "engine", _rng_eval, "BM-RNG")
